@@ -437,10 +437,12 @@ func drawSector(t *rapid.T) SectorCase {
 		rs := RangeSpec{Precalc: rapid.SampledFrom([]string{"nil", "all", "all", "some", "some"}).Draw(t, "precalc")}
 		rs.Start = drawIndex(t, 0, lps-1, "start")
 		switch rapid.IntRange(0, 9).Draw(t, "len") {
-		case 0, 1, 2:
+		case 0, 1:
 			rs.End = rs.Start + 1
-		case 3, 4, 5:
-			rs.End = rs.Start + rapid.IntRange(1, 130).Draw(t, "l")
+		case 2, 3, 4:
+			rs.End = rs.Start + rapid.IntRange(2, 130).Draw(t, "l")
+		case 5:
+			rs.End = rs.Start + rapid.IntRange(2, lps).Draw(t, "ll")
 		default:
 			rs.End = drawIndex(t, rs.Start+1, lps, "end")
 		}
